@@ -16,6 +16,7 @@ Section.merge, the link setter and clean/unmerge as programs over the primitive 
 -/
 import OdmlModel.Proofs.HeapStep
 import OdmlModel.Proofs.HeapExt
+import OdmlModel.Proofs.HeapQuery
 
 namespace C03
 open Heap
@@ -236,6 +237,56 @@ theorem document_is_chain_root_ext (fuel : Nat) (ops : List (Oracle × XOp)) (c 
       ∀ r', Anc (runX fuel X.empty ops).h r' c →
         ((runX fuel X.empty ops).h.node r').parent = none → r' = r :=
   document_is_chain_root _ (wf_reachable fuel ops) c
+
+/-! ### The `.document` query (`Model/HeapQuery.lean`)
+
+`document_is_chain_root` says that the parent chain has a unique root. The two theorems below are
+about the *executable* model of the query itself - `Sectionable.document` (the loop
+`while par.parent: par = par.parent`, whose test is the truthiness of the parent) and
+`BaseObject.document` (Properties ask their Section) - which the correspondence run compares with
+the implementation's `.document` of every object between the operations of a history: in every
+reachable state, whatever was asked before, the query answers `r` exactly when `r` is the root of
+the parent chain of the object and a Document (and nothing for an object whose chain ends in a
+detached Section or Property). -/
+
+/-- An object's document is the root of its parent chain (the query as the library computes it,
+    with `size + 1` rounds for the walk, never stopped early by a falsy parent). -/
+theorem document_query_is_chain_root (h : H) (w : WF h) (c : Nat) (hc : c < h.size) (r : Nat) :
+    document h c = some r ↔
+      (Anc h r c ∧ (h.node r).parent = none ∧ (h.node r).kind = .doc) :=
+  document_spec w hc r
+
+/-- The same in every state reachable by a history over the extended operation set: the answer
+    depends on the state only - also after an ancestor of the object has been moved to another
+    Document, below a Section of another Document, or detached. -/
+theorem document_query_is_chain_root_ext (fuel : Nat) (ops : List (Oracle × XOp)) (c : Nat)
+    (hc : c < (runX fuel X.empty ops).h.size) (r : Nat) :
+    document (runX fuel X.empty ops).h c = some r ↔
+      (Anc (runX fuel X.empty ops).h r c ∧ ((runX fuel X.empty ops).h.node r).parent = none ∧
+        ((runX fuel X.empty ops).h.node r).kind = .doc) :=
+  document_spec (wf_reachable fuel ops) hc r
+
+/-- A detached object (its chain does not end in a Document) has no document. -/
+theorem document_query_none (h : H) (w : WF h) (c : Nat) (hc : c < h.size) :
+    document h c = none ↔
+      ∀ r, Anc h r c → (h.node r).parent = none → (h.node r).kind ≠ .doc := by
+  constructor
+  · intro hn r ha h0 hk
+    have := (document_spec w hc r).mpr ⟨ha, h0, hk⟩
+    rw [hn] at this; cases this
+  · intro hall
+    cases hd : document h c with
+    | none => rfl
+    | some r =>
+      obtain ⟨ha, h0, hk⟩ := (document_spec w hc r).mp hd
+      exact absurd hk (hall r ha h0)
+
+-- a (below x below b) sits in the document until the item assignment puts a in the place of b:
+-- afterwards b and x below it are detached, and the answer for x has changed with the move of b
+example : document (run empty (demoOps.take 9)) 1 = some 0 ∧
+    document (run empty (demoOps.take 9)) 3 = some 0 := by decide
+example : document (run empty demoOps) 1 = some 0 ∧ document (run empty demoOps) 3 = none ∧
+    document (run empty demoOps) 2 = none := by decide
 
 /-- What `stepX` does for a clone, in terms of `cloneAux`. -/
 theorem stepX_clone (fuel : Nat) (s : X) (O : Oracle) (x : Nat) (ch kid : Bool)
